@@ -497,6 +497,7 @@ class Model(nn.Module):
             logging.info("-" * 22)
             logging.info(f"REASONING STEP:{steps}")
             bounds_diff = 0.0
+            n_groundings = self.shape[1]
             for d in direction:
                 bounds_diff += self._traverse_execute(
                     d.value.lower(), d, source, **kwds
@@ -504,7 +505,7 @@ class Model(nn.Module):
             converged_bounds = (
                 True
                 if direction in ([[Direction.UPWARD], [Direction.DOWNWARD]])
-                else bounds_diff <= 1e-7
+                else bounds_diff <= 1e-7 and self.shape[1] == n_groundings
             )
             if converged_bounds:
                 converged = True
